@@ -475,6 +475,7 @@ def run(pid, tier, seed):
             pf = [pex.submit(b1_model, pid, tier, seed, model, wd) for model in models]
             b2stats = b2(pid, tier, seed, wd, rep)
             hookstats = hook_validation(pid, tier, seed, wd, rep)
+            exstats = exchange_binding(pid, tier, seed, wd, rep) if pid in ("C05", "C07", "C15") else None
             for f in pf:
                 st = f.result()
                 for props, what, replay in st.pop("findings"):
@@ -507,10 +508,137 @@ def run(pid, tier, seed):
     rep.add_cov(states=states, transitions=transitions, traces_validated_against_impl=traces, samples=samples,
                 model_checking=mcstats,
                 lts_replay=[{k: s[k] for k in ("model", "lts_states", "lts_edges", "scripts", "steps", "truncated", "nondet_scripts", "mismatches", "t")} for s in b1stats],
-                trace_validation=b2stats, hook_trace_validation=hookstats, edge_labels_driven=labels,
+                trace_validation=b2stats, hook_trace_validation=hookstats, client_server_exchange=exstats, edge_labels_driven=labels,
                 rule="B1: every (state,input) pair of each dumped LTS (tour) + all input words to depth %d + random walks, executed on the real StunAgent under several time scales/algorithms and followed through the LTS; B2: random histories with real ms values validated by TLC against StunAgentTrace" % (3 if tier == "quick" else 4))
     rep.assumptions += ["HMAC validity is abstracted to key identity in the agent model (byte-level truth is C04)",
                         "bounded models: 2 concurrent transactions, short schedules, small clock; beyond that sampled by B2",
                         "TLC and the Json/IOUtils community modules are trusted"]
     shutil.rmtree(wd, ignore_errors=True)
     return rep.finish()
+
+
+# --------------------------------------------------------------------------- client / server / network exchange
+def ex_key_of_act(act, src, dst):
+    n = act["name"]
+    if n == "server":
+        return ("server", act["tid"], bool(act["keep"]))
+    if n == "lose":
+        return ("lose", act["tid"], act["dir"])
+    if n == "recv":
+        keep = dst["ndup"] == src["ndup"] + 1
+        return ("client_recv", act["tid"], keep)
+    return input_key(act)
+
+
+def ex_key_to_step(k):
+    if k[0] == "server":
+        return {"a": "server", "tid": k[1], "keep": k[2]}
+    if k[0] == "lose":
+        return {"a": "lose", "tid": k[1], "dir": k[2]}
+    if k[0] == "client_recv":
+        return {"a": "client_recv", "tid": k[1], "keep": k[2]}
+    return key_to_step(k)
+
+
+def ex_step_key(ev):
+    a = ev["a"]
+    if a == "server":
+        return ("server", ev["tid"], bool(ev["keep"]))
+    if a == "lose":
+        return ("lose", ev["tid"], ev["dir"])
+    if a == "client_recv":
+        return ("client_recv", ev["tid"], bool(ev["keep"]))
+    return step_to_key(ev)
+
+
+def exchange_binding(pid, tier, seed, wd, rep):
+    """StunExchange.tla: a real client StunAgent, a stateless server built from the library's own calls and a lossy,
+    duplicating network, driven through every (state, input) pair of the model's LTS"""
+    t0 = time.time()
+    mc = run_tlc("StunExchange.tla", "StunExchange_mc1.cfg", workers=4, timeout=3000)
+    tlc_ok(mc, "StunExchange mc1")
+    path = os.path.join(wd, "exchange.lts")
+    res = run_tlc("StunExchange.tla", "StunExchange_lts.cfg", workers=1, timeout=3000, out_path=path)
+    tlc_ok(res, "StunExchange LTS")
+    l = LTS()
+    tids_sorted = None
+    with open(path) as f:
+        for ln in f:
+            if not ln.startswith('"EDGE '):
+                continue
+            e = json.loads(json.loads(ln)[5:])
+            s, d = l.sid(e["src"]), l.sid(e["dst"])
+            if l.init is None:
+                l.init = s
+            k = ex_key_of_act(e["act"], e["src"], e["dst"])
+            l.trans[s].setdefault(k, []).append((e["act"].get("reply"), d))
+            l.nedges += 1
+    os.remove(path)
+    rng = random.Random(seed + 77)
+    words = gen_tour(l, maxlen=30) + gen_random_walks(l, 200 if tier == "quick" else 3000, 40, rng)
+    model_tids = [1]
+    scripts = []
+    for i, w in enumerate(words):
+        sc = {"id": "ex/%d" % i, "seed": i + seed, "transport": "udp", "scale": [1, 500, 60000][i % 3], "probe": True, "ntids": 4,
+              "install": [1, 2, 1], "exchange": True, "max_flight": 2, "server_key": "k1", "steps": [ex_key_to_step(k) for k in w],
+              "req_alg": ALGS[i % 3], "resp_alg": ALGS[(i // 3) % 3], "cred_variant": (i // 2) % 4, "seal": "ext" if i % 2 else "lib"}
+        scripts.append(sc)
+    out = run_scripts(scripts, wd, "exchange")
+    steps = mism = 0
+    for sc in scripts:
+        s = l.init
+        scale = sc["scale"]
+        for si, ev in enumerate(out[sc["id"]]):
+            key = ex_step_key(ev)
+            edges = l.trans[s].get(key)
+            if edges is None:
+                break
+            a = ev["a"]
+            ret = ev["ret"]
+            props = what = None
+            if a in ("server", "lose"):
+                if ret.get("k") not in ("server", "ok"):
+                    props, what = ["C05", "C07", "C02", "C16"], "the server built from the library did not answer a client request: %s" % json.dumps(ret)[:200]
+                cand = edges
+            else:
+                ev2 = dict(ev)
+                if a == "client_recv":
+                    ev2["a"] = "recv"
+                    if ret.get("k") == "response" and (ret.get("same") is not True or ret.get("mapped_ok") is not True):
+                        props, what = ["C05", "C13"], "response handed up is not the server's answer (id or mapped address): %s" % json.dumps(ret)
+                obs = abs_reply(ev2, scale)
+                cand = [(r, d) for (r, d) in edges if reply_matches(r, obs, scale)]
+                if not cand and not props:
+                    fake_key = ("recv", "response", key[1], "srv", "k1") if a == "client_recv" else key
+                    props = classify_reply(l, s, fake_key, ev2, [r for r, _ in edges], obs)
+                    what = "implementation answered %s, specification allows %s" % (canon(obs), canon([r for r, _ in edges]))
+            if not props:
+                r, d = cand[0]
+                dst = l.states[d]
+                got = norm_obs(ev["obs"])
+                exp_out = sorted([[o["tid"], o["to"]] for o in dst["out"]])
+                net = ev.get("net", {})
+                if got["out"] != exp_out:
+                    props, what = ["C05"], "outstanding %s, specification %s" % (got["out"], exp_out)
+                elif got["val"] != sorted(dst["val"]):
+                    props, what = ["C15"], "validated %s, specification %s" % (got["val"], dst["val"])
+                elif got["rcred"] != dst["rcred"]:
+                    props, what = ["C07"], "remote credentials %s, specification %s" % (got["rcred"], dst["rcred"])
+                elif [net["c2s"][t] for t in model_tids] != dst["c2s"] or [net["s2c"][t] for t in model_tids] != dst["s2c"]:
+                    props, what = ["C18", "C05"], "datagrams in flight %s, specification c2s=%s s2c=%s" % (net, dst["c2s"], dst["s2c"])
+                elif "probe" in ev and dst["probe"] not in ("idle", "skip") and not (ev["probe"].get("k") == "wait" and ev["probe"].get("until_ms") == int(dst["probe"]) * scale):
+                    props, what = ["C06"], "early poll answered %s, specification wait until %s" % (json.dumps(ev["probe"]), dst["probe"])
+                else:
+                    s = d
+                    steps += 1
+                    continue
+            mism += 1
+            text = "exchange %s step %d %s: %s" % (sc["id"], si, canon(key), what)
+            if pid in props:
+                rep.violation(text, {"kind": "agent_script", "script": sc})
+            else:
+                for p in props:
+                    rep.note_foreign(p)
+            break
+    return dict(model_states=mc["distinct"], model_transitions=mc["generated"], lts_edges=l.nedges, scripts=len(scripts), steps=steps,
+                mismatches=mism, t=round(time.time() - t0, 1))
